@@ -48,7 +48,8 @@ GUARD_BITS = {
                        "TriTopGuard (Props/C02/JoinsBBox.lean)",
                        "TriStrokeGuard (Props/C02/JoinsBBox.lean; n/a unless width >= 2 and alignment != Inside)",
                        "adjOK x3 conjuncts of TriStrokeGuard (n/a unless width >= 2 and alignment != Inside)",
-                       "TriOutlineGuard (Props/C02/JoinsBBox.lean; n/a unless width >= 2, alignment = Inside and not collapsed)"],
+                       "TriOutlineGuard (Props/C02/JoinsBBox.lean; n/a unless width >= 2, alignment = Inside and not collapsed)",
+                       "TriStrokeColumnsGuard (Props/C02/JoinsBBoxAlign.lean: vertex x coordinates inside the columns of the stroke box; n/a unless width >= 2 and alignment != Inside)"],
 }
 GUARD_TOKEN = re.compile(r" g=(\S+)")
 
